@@ -150,6 +150,14 @@ func (f *samplerFam) play(l *Line, out *rec) error {
 			if w.n > before+1 {
 				out.emit(map[string]interface{}{"a": "ExtraWrite", "n": w.n - before})
 			}
+			if crc32.ChecksumIEEE([]byte(l.ID))%4 == 2 {
+				// a child that takes the sampler OFF again - Sample(nil) - is an unsampled logger: what passes the levels is written,
+				// and the parent's sampler never hears of it (its later decisions are what they would have been)
+				b2 := w.n
+				child := logger.Sample(nil)
+				child.Log().Msg("u")
+				out.emit(map[string]interface{}{"a": "Unsampled", "lvl": int(zerolog.NoLevel), "written": w.n - b2})
+			}
 		case "Toggle":
 			zerolog.DisableSampling(op.Adm)
 			out.emit(samplerOp{A: "Toggle", Adm: op.Adm})
